@@ -68,6 +68,14 @@ protected:
      */
     bool hasToLog(const ErrorMessage &msg);
 
+    /**
+     * @brief Safety mode: a critical error has to reach the logger even if it is suppressed (see CppCheckLogger::reportErr()).
+     * The local suppressions are handled by the CppCheck instance which reported the message - this handles the global ones.
+     * @param msg the message which was rejected by hasToLog() - the severity is set to internal if it is explicitly suppressed
+     * @return true if the message is a suppressed critical error which has to be forwarded
+     */
+    bool isSuppressedCriticalError(ErrorMessage &msg);
+
     const std::list<FileWithDetails> &mFiles;
     const std::list<FileSettings>& mFileSettings;
     const Settings &mSettings;
